@@ -213,6 +213,18 @@ pub fn command_of(st: &Step) -> Option<Cmd> {
     })
 }
 
+/// The retain predicate is stateful: it answers by call number.  Turn the set of ids to keep into
+/// the answers for the idle queue as it is right now.
+pub fn retain_script(w: &World, t: usize, cmd: Cmd) -> Cmd {
+    match (&w.ts[t], cmd) {
+        (TState::AtPoint("m.retain.lock"), Cmd::Go(Some(keep))) => {
+            let ids = w.snapshot().slots.map(|s| s.3).unwrap_or_default();
+            Cmd::Go(Some(ids.iter().map(|id| keep.contains(id) as u32).collect()))
+        }
+        (_, c) => c,
+    }
+}
+
 /// Can `cmd` be given to a task in state `ts` (lenient mode, after a divergence)?
 pub fn applicable(w: &World, t: usize, cmd: &Cmd) -> bool {
     let lock_sites = [
@@ -272,6 +284,7 @@ pub fn run_path(cfg: &Cfg, path: &PathRec, rec: &mut Recorder) -> PathResult {
                 continue;
             }
             let before = w.ts[t].clone();
+            let cmd = retain_script(&w, t, cmd);
             w.send(t, cmd);
             rec.step(&w, Some(t), st, Some(&before));
             if w.hung {
